@@ -76,7 +76,7 @@ def _enc(v, out):
         _enc_bytes(v, out)
     elif t is str:
         out.append(bytes([T_UNICODE]))
-        _enc_bytes(v.encode("utf-8"), out)
+        _enc_bytes(v.encode("utf-8", "surrogatepass"), out)
     elif t is tuple:
         n = len(v)
         if n == 0:
@@ -161,7 +161,7 @@ def _dec(r, strict):
         return _dec_bytes_tag(tag, r, strict)
     if tag == T_UNICODE:
         inner = r.take(1)[0]
-        return _dec_bytes_tag(inner, r, strict).decode("utf-8")
+        return _dec_bytes_tag(inner, r, strict).decode("utf-8", "surrogatepass")
     if T_TUP1 <= tag <= T_TUP4:
         return tuple(_dec(r, strict) for _ in range(tag - T_TUP1 + 1))
     if tag == T_TUP_L1:
@@ -260,6 +260,8 @@ FROZEN = [
     (complex(1.0, -2.0), b"\x1b\x3f\xf0\x00\x00\x00\x00\x00\x00\xc0\x00\x00\x00\x00\x00\x00\x00"),
     (slice(1, 2, 3), b"\x19\x12\x51\x52\x53"), (frozenset([5]), b"\x1a\x10\x55"),
     (900, b"\x16\x03900"), ("€", b"\x08\x0c\xe2\x82\xac"),
+    # a lone surrogate (e.g. from os.fsdecode) travels as its 3-byte generalised UTF-8 form (brine as repaired, 23f1552)
+    ("\udce9", b"\x08\x0c\xed\xb3\xa9"),
 ]
 DOCSTRING_HEX = ("140e0b686557080c6c6c6f580216033930300003061840323333333333331b402a000000000000403233333333333319125152531a"
                  "1255565705")
